@@ -103,4 +103,226 @@ theorem shift_ifftshift_fftshift_id (t : Tensor α) (d : Nat)
   rw [fftshift_single, ifftshift_single]; exact ifftshift_fftshift_id_nd t d hwf hd
 
 
+/-! ## several axes at once: the model's `fftshift` / `ifftshift` / `fft2` / `ifft2` over a
+duplicate-free axis tuple, on the tensors (and the `alongAxis`) the driver runs -/
+
+open DirectVerif.Fft DirectVerif.C01
+
+/-- `f` moves through operators on other axes, under an invariant `P` -/
+theorem applyAxes_comm_on {X} (P : X → Prop) (f : X → X) (g : Nat → X → X) (ds : List Nat)
+    (hPg : ∀ d' ∈ ds, ∀ x, P x → P (g d' x))
+    (hc : ∀ d' ∈ ds, ∀ x, P x → f (g d' x) = g d' (f x)) (x : X) (hx : P x) :
+    f (applyAxes g ds x) = applyAxes g ds (f x) := by
+  induction ds generalizing x with
+  | nil => rfl
+  | cons d ds ih =>
+    have hd := List.mem_cons_self (a := d) (l := ds)
+    rw [applyAxes_cons, applyAxes_cons,
+      ih (fun d' hd' => hPg d' (List.mem_cons_of_mem _ hd')) (fun d' hd' => hc d' (List.mem_cons_of_mem _ hd'))
+        _ (hPg d hd x hx), hc d hd x hx]
+
+/-- invariant-carrying version of `C01.applyAxes_cancel` -/
+theorem applyAxes_cancel_on {X} (P : X → Prop) (f g : Nat → X → X) (dims : List Nat) (hnd : dims.Nodup)
+    (hPg : ∀ d ∈ dims, ∀ x, P x → P (g d x))
+    (hinv : ∀ d ∈ dims, ∀ x, P x → f d (g d x) = x)
+    (hcomm : ∀ d ∈ dims, ∀ d' ∈ dims, d ≠ d' → ∀ x, P x → f d (g d' x) = g d' (f d x))
+    (x : X) (hx : P x) : applyAxes f dims (applyAxes g dims x) = x := by
+  induction dims generalizing x with
+  | nil => rfl
+  | cons d ds ih =>
+    rw [List.nodup_cons] at hnd
+    have hd := List.mem_cons_self (a := d) (l := ds)
+    rw [applyAxes_cons, applyAxes_cons,
+      applyAxes_comm_on P (f d) g ds (fun d' hd' => hPg d' (List.mem_cons_of_mem _ hd'))
+        (fun d' hd' => hcomm d hd d' (List.mem_cons_of_mem _ hd') (fun e => hnd.1 (e ▸ hd'))) _ (hPg d hd x hx),
+      hinv d hd x hx]
+    exact ih hnd.2 (fun d' hd' => hPg d' (List.mem_cons_of_mem _ hd'))
+      (fun d' hd' => hinv d' (List.mem_cons_of_mem _ hd'))
+      (fun a ha b hb => hcomm a (List.mem_cons_of_mem _ ha) b (List.mem_cons_of_mem _ hb)) x hx
+
+/-- well-formed tensor of shape `s` -/
+def WF (s : List Nat) (t : Tensor α) : Prop := t.data.length = prod t.shape ∧ t.shape = s
+
+theorem WF.alongAxis {s : List Nat} {t : Tensor α} (h : WF s t) (d : Nat) (hd : d < s.length)
+    (f : List α → List α) (hf : LenUniform f (s.getD d 1) (s.getD d 1)) : WF s (t.alongAxis d f) := by
+  obtain ⟨hwf, hs⟩ := h
+  subst hs
+  refine ⟨alongAxis_wellFormed t d f _ hd hf, ?_⟩
+  rw [alongAxis_shape t d f _ hf, set_getD_self]
+
+omit [Inhabited α] in
+theorem lenUniform_rollOne (s : Int) (n : Nat) : LenUniform (Shift.rollOne (α := α) s) n n :=
+  fun xs hxs => by rw [C01.rollOne_length, hxs]
+omit [Inhabited α] in
+theorem lenUniform_fftshift1 (n : Nat) : LenUniform (Shift.fftshift1 (α := α)) n n :=
+  fun xs hxs => by rw [C01.fftshift1_length, hxs]
+omit [Inhabited α] in
+theorem lenUniform_ifftshift1 (n : Nat) : LenUniform (Shift.ifftshift1 (α := α)) n n :=
+  fun xs hxs => by rw [C01.ifftshift1_length, hxs]
+
+/-- `roll` with per-axis amounts computed from the (unchanging) shape is the per-axis application -/
+theorem roll_eq_applyAxes (s : List Nat) (amt : Int → Int) (op : List α → List α)
+    (hop : ∀ xs : List α, op xs = Shift.rollOne (amt xs.length) xs)
+    (dims : List Nat) (hr : ∀ d ∈ dims, d < s.length) (t : Tensor α) (ht : WF s t) :
+    Shift.roll t (dims.map fun d => amt (s.getD d 1)) dims = applyAxes (fun d t => t.alongAxis d op) dims t := by
+  induction dims generalizing t with
+  | nil => rfl
+  | cons d ds ih =>
+    have hd := hr d (List.mem_cons_self ..)
+    have hstep : t.alongAxis d (Shift.rollOne (amt (s.getD d 1))) = t.alongAxis d op :=
+      alongAxis_congr t d _ _ (fun xs hxs => by rw [hop, hxs, ht.2])
+    have hwf' : WF s (t.alongAxis d op) := ht.alongAxis d hd op (fun xs hxs => by rw [hop, C01.rollOne_length, hxs])
+    have := ih (fun d' hd' => hr d' (List.mem_cons_of_mem _ hd')) (t.alongAxis d op) hwf'
+    simp only [Shift.roll, List.map_cons, List.zip_cons_cons, List.foldl_cons, applyAxes_cons] at this ⊢
+    rw [hstep]; exact this
+
+theorem fftshift_eq_applyAxes (s : List Nat) (dims : List Nat) (hr : ∀ d ∈ dims, d < s.length)
+    (t : Tensor α) (ht : WF s t) :
+    Shift.fftshift t dims = applyAxes (fun d t => t.alongAxis d Shift.fftshift1) dims t := by
+  have := roll_eq_applyAxes s Shift.fftshiftAmount Shift.fftshift1 (fun _ => rfl) dims hr t ht
+  rw [← this, Shift.fftshift, ht.2]
+
+theorem ifftshift_eq_applyAxes (s : List Nat) (dims : List Nat) (hr : ∀ d ∈ dims, d < s.length)
+    (t : Tensor α) (ht : WF s t) :
+    Shift.ifftshift t dims = applyAxes (fun d t => t.alongAxis d Shift.ifftshift1) dims t := by
+  have := roll_eq_applyAxes s Shift.ifftshiftAmount Shift.ifftshift1 (fun _ => rfl) dims hr t ht
+  rw [← this, Shift.ifftshift, ht.2]
+
+theorem WF.applyAxes {s : List Nat} (op : Nat → List α → List α) (dims : List Nat)
+    (hr : ∀ d ∈ dims, d < s.length) (hop : ∀ d ∈ dims, LenUniform (op d) (s.getD d 1) (s.getD d 1))
+    {t : Tensor α} (ht : WF s t) : WF s (applyAxes (fun d t => t.alongAxis d (op d)) dims t) := by
+  induction dims generalizing t with
+  | nil => exact ht
+  | cons d ds ih =>
+    rw [applyAxes_cons]
+    exact ih (fun d' hd' => hr d' (List.mem_cons_of_mem _ hd')) (fun d' hd' => hop d' (List.mem_cons_of_mem _ hd'))
+      (ht.alongAxis d (hr d (List.mem_cons_self ..)) _ (hop d (List.mem_cons_self ..)))
+
+/-- **C01, n-D, any duplicate-free axis tuple**: the model's `fftshift(ifftshift(t, dims), dims) = t`
+for every well-formed tensor, every rank, every axis lengths (odd, even, 1) -/
+theorem fftshift_ifftshift_id_dims (t : Tensor α) (dims : List Nat) (hnd : dims.Nodup)
+    (hwf : t.data.length = prod t.shape) (hr : ∀ d ∈ dims, d < t.shape.length) :
+    Shift.fftshift (Shift.ifftshift t dims) dims = t := by
+  have ht : WF t.shape t := ⟨hwf, rfl⟩
+  have hI : WF t.shape (Shift.ifftshift t dims) := by
+    rw [ifftshift_eq_applyAxes t.shape dims hr t ht]
+    exact WF.applyAxes (fun _ => Shift.ifftshift1) dims hr (fun d _ => lenUniform_ifftshift1 _) ht
+  rw [fftshift_eq_applyAxes t.shape dims hr _ hI, ifftshift_eq_applyAxes t.shape dims hr t ht]
+  exact applyAxes_cancel_on (WF t.shape) _ _ dims hnd
+    (fun d hd x hx => hx.alongAxis d (hr d hd) _ (lenUniform_ifftshift1 _))
+    (fun d hd x hx => fftshift_ifftshift_id_nd x d hx.1 (by rw [hx.2]; exact hr d hd))
+    (fun d hd d' hd' hne x hx =>
+      (fftshift_comm_nd x d d' Shift.ifftshift1 _ hne (by rw [hx.2]; exact hr d hd) (by rw [hx.2]; exact hr d' hd')
+        (lenUniform_ifftshift1 _)).symm)
+    t ht
+
+theorem ifftshift_fftshift_id_dims (t : Tensor α) (dims : List Nat) (hnd : dims.Nodup)
+    (hwf : t.data.length = prod t.shape) (hr : ∀ d ∈ dims, d < t.shape.length) :
+    Shift.ifftshift (Shift.fftshift t dims) dims = t := by
+  have ht : WF t.shape t := ⟨hwf, rfl⟩
+  have hI : WF t.shape (Shift.fftshift t dims) := by
+    rw [fftshift_eq_applyAxes t.shape dims hr t ht]
+    exact WF.applyAxes (fun _ => Shift.fftshift1) dims hr (fun d _ => lenUniform_fftshift1 _) ht
+  rw [ifftshift_eq_applyAxes t.shape dims hr _ hI, fftshift_eq_applyAxes t.shape dims hr t ht]
+  exact applyAxes_cancel_on (WF t.shape) _ _ dims hnd
+    (fun d hd x hx => hx.alongAxis d (hr d hd) _ (lenUniform_fftshift1 _))
+    (fun d hd x hx => ifftshift_fftshift_id_nd x d hx.1 (by rw [hx.2]; exact hr d hd))
+    (fun d hd d' hd' hne x hx =>
+      (ifftshift_comm_nd x d d' Shift.fftshift1 _ hne (by rw [hx.2]; exact hr d hd) (by rw [hx.2]; exact hr d' hd')
+        (lenUniform_fftshift1 _)).symm)
+    t ht
+
+/-- the laws of `C01.Lawful`, required only on the elements satisfying an invariant `P` that every
+operation preserves -/
+structure LawfulOn {X} (P : X → Prop) (B : Backend X) : Prop where
+  pI : ∀ x, P x → P (B.ishift x)
+  pS : ∀ x, P x → P (B.fshift x)
+  pF : ∀ inv nm x, P x → P (B.transform inv nm x)
+  pC : ∀ x, P x → P (B.viewComplex x)
+  pR : ∀ x, P x → P (B.viewReal x)
+  fshift_ishift : ∀ x, P x → B.fshift (B.ishift x) = x
+  ishift_fshift : ∀ x, P x → B.ishift (B.fshift x) = x
+  inv_fwd : ∀ nm x, P x → B.transform true nm (B.transform false nm x) = x
+  fwd_inv : ∀ nm x, P x → B.transform false nm (B.transform true nm x) = x
+  viewC_viewR : ∀ x, P x → B.viewComplex (B.viewReal x) = x
+  viewR_viewC : ∀ x, P x → B.viewReal (B.viewComplex x) = x
+
+theorem ifft2_fft2_id_of_lawfulOn {X} {P : X → Prop} {B : Backend X} (h : LawfulOn P B) (cfg : Cfg)
+    (x : X) (hx : P x) : ifft2 B cfg (fft2 B cfg x) = x ∧ fft2 B cfg (ifft2 B cfg x) = x := by
+  obtain ⟨c, n, ci⟩ := cfg
+  cases c <;> cases n <;> cases ci <;>
+    simp (maxDischargeDepth := 12) [ifft2, fft2, runData, fft2Plan, ifft2Plan, Guard.holds, applyOp, h.fshift_ishift,
+      h.ishift_fshift, h.inv_fwd, h.fwd_inv, h.viewC_viewR, h.viewR_viewC, h.pI, h.pS, h.pF, h.pC, hx]
+
+/-- what is assumed of the 1-D transform family `F inverse norm axis` on the axes `dims` of tensors
+of shape `s`: it preserves the axis length, `F true` undoes `F false` (and conversely) on lists of
+the axis length, and its liftings along two different axes commute (true of the DFT, which acts
+linearly on fibres; false for arbitrary functions — `alongAxis_comm_fails_in_general`). -/
+structure TransformLaws (s : List Nat) (dims : List Nat) (F : Bool → Norm → Nat → List α → List α) : Prop where
+  len : ∀ inv nm, ∀ d ∈ dims, LenUniform (F inv nm d) (s.getD d 1) (s.getD d 1)
+  inv_fwd : ∀ nm, ∀ d ∈ dims, ∀ xs : List α, xs.length = s.getD d 1 → F true nm d (F false nm d xs) = xs
+  fwd_inv : ∀ nm, ∀ d ∈ dims, ∀ xs : List α, xs.length = s.getD d 1 → F false nm d (F true nm d xs) = xs
+  comm : ∀ nm inv inv', ∀ d ∈ dims, ∀ d' ∈ dims, d ≠ d' → ∀ t : Tensor α, WF s t →
+    (t.alongAxis d' (F inv' nm d')).alongAxis d (F inv nm d) = (t.alongAxis d (F inv nm d)).alongAxis d' (F inv' nm d')
+
+theorem tensorBackend_lawfulOn (s : List Nat) (dims : List Nat) (hnd : dims.Nodup) (hr : ∀ d ∈ dims, d < s.length)
+    (F : Bool → Norm → Nat → List α → List α) (hF : TransformLaws s dims F) :
+    LawfulOn (WF s) (tensorBackend F dims) where
+  pI := fun x hx => by
+    show WF s (Shift.ifftshift x dims)
+    rw [ifftshift_eq_applyAxes s dims hr x hx]
+    exact WF.applyAxes (fun _ => Shift.ifftshift1) dims hr (fun d _ => lenUniform_ifftshift1 _) hx
+  pS := fun x hx => by
+    show WF s (Shift.fftshift x dims)
+    rw [fftshift_eq_applyAxes s dims hr x hx]
+    exact WF.applyAxes (fun _ => Shift.fftshift1) dims hr (fun d _ => lenUniform_fftshift1 _) hx
+  pF := fun inv nm x hx => WF.applyAxes (F inv nm) dims hr (hF.len inv nm) hx
+  pC := fun _ hx => hx
+  pR := fun _ hx => hx
+  fshift_ishift := fun x hx => by
+    have := fftshift_ifftshift_id_dims x dims hnd hx.1 (by rw [hx.2]; exact hr)
+    exact this
+  ishift_fshift := fun x hx => by
+    have := ifftshift_fftshift_id_dims x dims hnd hx.1 (by rw [hx.2]; exact hr)
+    exact this
+  inv_fwd := fun nm x hx =>
+    applyAxes_cancel_on (WF s) _ _ dims hnd
+      (fun d hd y hy => hy.alongAxis d (hr d hd) _ (hF.len false nm d hd))
+      (fun d hd y hy => alongAxis_cancel y d _ _ _ hy.1 (by rw [hy.2]; exact hr d hd)
+        (by rw [hy.2]; exact hF.len false nm d hd) (by rw [hy.2]; exact hF.len true nm d hd)
+        (fun xs hxs => hF.inv_fwd nm d hd xs (by rw [hxs, hy.2])))
+      (fun d hd d' hd' hne y hy => hF.comm nm true false d hd d' hd' hne y hy)
+      x hx
+  fwd_inv := fun nm x hx =>
+    applyAxes_cancel_on (WF s) _ _ dims hnd
+      (fun d hd y hy => hy.alongAxis d (hr d hd) _ (hF.len true nm d hd))
+      (fun d hd y hy => alongAxis_cancel y d _ _ _ hy.1 (by rw [hy.2]; exact hr d hd)
+        (by rw [hy.2]; exact hF.len true nm d hd) (by rw [hy.2]; exact hF.len false nm d hd)
+        (fun xs hxs => hF.fwd_inv nm d hd xs (by rw [hxs, hy.2])))
+      (fun d hd d' hd' hne y hy => hF.comm nm false true d hd d' hd' hne y hy)
+      x hx
+  viewC_viewR := fun _ _ => rfl
+  viewR_viewC := fun _ _ => rfl
+
+/-- **C01, n-D, on the backend the driver runs** (`Fft.tensorBackend`: the model's `fftshift` /
+`ifftshift` over `dims` and the `alongAxis` lifting of a 1-D transform pair): for every
+well-formed tensor of any rank and axis lengths, every duplicate-free in-range axis tuple and all 8
+flag combinations, `ifft2 ∘ fft2 = id` and `fft2 ∘ ifft2 = id`. -/
+theorem ifft2_fft2_id_tensor (t : Tensor α) (dims : List Nat) (hnd : dims.Nodup)
+    (hwf : t.data.length = prod t.shape) (hr : ∀ d ∈ dims, d < t.shape.length)
+    (F : Bool → Norm → Nat → List α → List α) (hF : TransformLaws t.shape dims F) (cfg : Cfg) :
+    ifft2 (tensorBackend F dims) cfg (fft2 (tensorBackend F dims) cfg t) = t ∧
+    fft2 (tensorBackend F dims) cfg (ifft2 (tensorBackend F dims) cfg t) = t :=
+  ifft2_fft2_id_of_lawfulOn (tensorBackend_lawfulOn t.shape dims hnd hr F hF) cfg t ⟨hwf, rfl⟩
+
+/-- non-vacuity: the identity transform family satisfies `TransformLaws` -/
+example (s dims : List Nat) (hr : ∀ d ∈ dims, d < s.length) : TransformLaws (α := α) s dims (fun _ _ _ xs => xs) := by
+  have h1 : ∀ d ∈ dims, ∀ u : Tensor α, WF s u → u.alongAxis d (fun xs => xs) = u := fun d hd u hu =>
+    alongAxis_id_of u d _ hu.1 (by rw [hu.2]; exact hr d hd) (fun _ _ => rfl)
+  exact ⟨fun _ _ _ _ _ h => h, fun _ _ _ _ _ => rfl, fun _ _ _ _ _ => rfl,
+    fun _ _ _ d hd d' hd' _ t ht => by rw [h1 d' hd' t ht, h1 d hd t ht, h1 d' hd' t ht]⟩
+
+example : Shift.fftshift (Shift.ifftshift (⟨[2, 3], [1, 2, 3, 4, 5, 6]⟩ : Tensor Nat) [0, 1]) [0, 1]
+    = ⟨[2, 3], [1, 2, 3, 4, 5, 6]⟩ := fftshift_ifftshift_id_dims _ _ (by decide) (by decide) (by decide)
+
 end DirectVerif.TensorLift
